@@ -140,11 +140,13 @@ class World:
         self.rho, self.theta = lentil.zernike_coordinates(self.imask)
         self.coeffs = rng.normal(size=5)
         self.modes = np.array([4, 2, 6])
+        # a second-order grism shared by all calls: lambda = 5e-3 d^2 + 1e-4 d + 650 nm (no root below 150 nm)
+        self.dt2 = lentil.DispersiveTilt(trace=[2.0, 0.5, 0.0], dispersion=[5e-3, 1e-4, 6.5e-7])
 
     def watched(self):
         return [self.amp, self.mask, self.imask, self.opd, self.cube, self.pupil, self.seg, self.wave0, self.wpupil,
                 self.wtilt, self.wfit, self.rect, self.pupil2, self.out_mask, self.f, self.frame, self.iframe, self.cube_img, self.wave_nm, self.s_um, self.s_nm,
-                self.s_dens, self.gain, self.pgain, self.img, self.rho, self.theta, self.coeffs, self.modes]
+                self.s_dens, self.gain, self.pgain, self.img, self.rho, self.theta, self.coeffs, self.modes, self.dt2]
 
     def arrays(self):
         return [o for o in self.watched() if isinstance(o, np.ndarray)]
@@ -183,6 +185,11 @@ OPS = {
     "plane_attributes": lambda w, p: [np.asarray(getattr(pl, a), dtype=float) for pl in (w.pupil, w.pupil2, w.seg)
                                       for a in ("diameter", "shape", "size", "pixelscale", "global_mask", "ptt_vector")],
     "wavefront_attributes": lambda w, p: [w.wpupil.field, w.wpupil.intensity, w.wtilt.field, np.asarray(w.wtilt.shape, dtype=float)],
+    # higher-order dispersion on one shared object, at in-band wavelengths and at two without a root
+    "dispersive2_shift": lambda w, p: [np.asarray(v, dtype=float) for v in
+                                       w.dt2.shift(wavelength=[5e-7, 6e-7, 7e-7, 8e-7, 1e-7, 1.2e-7][p % 6])],
+    "dispersive2_multiply": lambda w, p: [np.asarray(v, dtype=float) for v in
+                                          (w.wpupil * w.dt2).data[0].tilt[-1].shift(wavelength=[5.5e-7, 7.5e-7, 1e-7][p % 3])],
     "rescale": lambda w, p: w.pupil.rescale([0.5, 1.5, 2.0][p % 3]),
     "resample": lambda w, p: w.pupil.resample(w.dx / 1.5),
     "plane.copy": lambda w, p: w.seg.copy(),
@@ -251,7 +258,7 @@ def run_op(name, world, p):
 def diff_watch(before, world):
     names = ["amp", "mask", "imask", "opd", "cube", "pupil", "seg", "wave0", "wpupil", "wtilt", "wfit", "rect", "pupil2", "out_mask", "f", "frame",
              "iframe", "cube_img", "wave_nm", "s_um", "s_nm", "s_dens", "gain", "pgain", "img", "rho", "theta",
-             "coeffs", "modes"]
+             "coeffs", "modes", "dt2"]
     return [n for n, b, o in zip(names, before, world.watched()) if b != snap(o)]
 
 
@@ -322,7 +329,7 @@ def all_ops(case, ctx):
 # ---------------------------------------------------------------------------------------------------
 # (2) histories on shared objects
 
-PROBES = ["rescale", "resample", "plane_attributes", "fit_tilt_copy_other_mask", "ptt_vector_other_mask", "fit_tilt_copy", "propagate_dft", "propagate_tilted", "multiply_tilt_on_fitted", "dft2", "dft2_same_shape", "spectrum_sample", "fit_then_propagate", "collect_charge_spectrum",
+PROBES = ["dispersive2_shift", "rescale", "resample", "plane_attributes", "fit_tilt_copy_other_mask", "ptt_vector_other_mask", "fit_tilt_copy", "propagate_dft", "propagate_tilted", "multiply_tilt_on_fitted", "dft2", "dft2_same_shape", "spectrum_sample", "fit_then_propagate", "collect_charge_spectrum",
           "zernike_custom_coords", "adc", "multiply_segmented"]
 
 
